@@ -173,11 +173,45 @@ def run_case(desc):
             S.stores[i].set_content(irmod.Val(("src", i), S.src_version[i]))
         elif dl:
             S.delete(rng.choice(dl))
+    timeless = None
+    if desc["seed"] % 6 == 1:
+        # a pure source that holds a value but reports no modified time (a store kind that does not track one): out of date, like a missing
+        # one - which the real run finds out by reading it when a consumer executes, and the dry run must not find out at all
+        ps = [i for i in S.reg if S.rp.role[i] == "psrc" and S.stores[i].mtick is not None]
+        if ps:
+            timeless = rng.choice(ps)
+            S.stores[timeless].mtick = None
     out_ids = history.choose_out(rng, S)
     fresh = history.choose_fresh(rng, S)
     snap = S.snapshot()
     state_before = S.state_desc()
     bad = None
+    if desc["seed"] % 6 == 2 and S.store_name:
+        # a registered store whose modified time cannot be determined (OSError: the file's directory is gone, the mount is down): the real run
+        # fails while planning, before any call or store access - and so must the dry run; it may not hand back a plan the real run never executes
+        victim = rng.choice(sorted(S.store_name.values()))
+
+        def mt_fails(kind, st):
+            if kind == "mt" and st.name == victim:
+                raise FileNotFoundError(2, f"cannot stat the file behind {st.name}")
+
+        S.H.store_hook = mt_fails
+        try:
+            resD, excD = S.run(out_ids, W=rng.choice([1, 4]), fresh_tick=fresh, dry_run=True)
+            askedD = any(k == "mt_raise" for s, k, key, tid, x in S.H.events)
+            S.restore(snap)
+            resR, excR = S.run(out_ids, W=rng.choice([1, 4]), fresh_tick=fresh)
+            askedR = any(k == "mt_raise" for s, k, key, tid, x in S.H.events)
+            touchedR = [(k, key) for s, k, key, tid, x in S.H.events if k not in ("mt", "mt_end", "mt_raise")]
+        finally:
+            S.H.store_hook = None
+        r_ = {"status": "ok", "counters": {"dry_runs": 1, "failing_mtime_dry_runs": int(askedD or askedR)}, "nontrivial": askedR,
+              "sig": hashlib.sha1(("\n".join(S.describe(200)) + f"|mtfail|{victim}|{out_ids}|{fresh}").encode()).hexdigest()[:16]}
+        if (excD is None) != (excR is None):
+            r_.update(status="violation", mechanism="dry-run", witness={"plan": S.describe(200), "prefix": log, "state": state_before, "out": out_ids, "fresh": fresh},
+                      detail=f"the modified time of {victim} cannot be determined (FileNotFoundError): the real run -> {repr(excR)[:90]} (store/call events: {touchedR[:6]}), "
+                             f"the dry run from the same state -> {'returned a physical plan' if excD is None else repr(excD)[:90]}")
+        return r_
     # (1) the dry run itself. One case in five: every store's first modified-time query of a run fails transiently and retry=2 is given -
     # to the dry run exactly as to the real run
     flaky_mt = desc["seed"] % 5 == 0
@@ -273,7 +307,7 @@ def run_case(desc):
                     bad = f"outputs differ: physical plan alone {irmod.canon(rA[0])[:150]} vs real run {irmod.canon(rB)[:150]}"
                 elif out_ids is None and rB is not None:
                     bad = f"real run without output returned {rB!r}"
-    counters = {"flaky_mtime_dry_runs": int(flaky_mt), "dry_runs": 1, "dry_plans_with_reads_and_writes": int(n_reads > 0 and n_writes > 0), "dry_plan_reads": n_reads,
+    counters = {"flaky_mtime_dry_runs": int(flaky_mt), "timeless_source_dry_runs": int(timeless is not None), "dry_runs": 1, "dry_plans_with_reads_and_writes": int(n_reads > 0 and n_writes > 0), "dry_plan_reads": n_reads,
                 "dry_plan_writes": n_writes, "differentials": int(bad is None)}
     res_ = {"status": "ok", "counters": counters, "nontrivial": n_reads > 0 and n_writes > 0,
             "sig": hashlib.sha1(("\n".join(S.describe(200)) + f"|{state_before}|{out_ids}|{fresh}").encode()).hexdigest()[:16]}
